@@ -25,30 +25,52 @@ ASSUMPTIONS = ["every value is shorter than 2^32 bytes (the length prefix is a u
                "the database directory is closed (flushed) when Backup runs, as dnsrocks-backuprdb requires; the write-ahead log is disabled"]
 
 
-def _pairs(l):
-    return clist([cpair(cbytes(p.get("k") or []), cbytes(p.get("v") or [])) for p in (l or [])])
+class _Dict:
+    """Every distinct byte string of a case is bound once (let vN := [...] in ...):
+    the observations repeat the same few values many times and Coq parses
+    numerals slowly."""
+    def __init__(self):
+        self.names = {}
+        self.defs = []
+
+    def b(self, l):
+        t = tuple(int(x) for x in (l or []))
+        if len(t) == 0:
+            return "[]"
+        n = self.names.get(t)
+        if n is None:
+            n = "v%d" % len(self.names)
+            self.names[t] = n
+            self.defs.append("let %s : bytes := %s in" % (n, cbytes(t)))
+        return n
 
 
-def _op(s):
+def _pairs(d, l):
+    return clist([cpair(d.b(p.get("k")), d.b(p.get("v"))) for p in (l or [])])
+
+
+def _op(d, s):
     op = s["op"]
     if op == "add":
-        return "(OAdd %s %s)" % (cbytes(s.get("k") or []), cbytes(s.get("v") or []))
+        return "(OAdd %s %s)" % (d.b(s.get("k")), d.b(s.get("v")))
     if op == "del":
-        return "(ODel %s %s)" % (cbytes(s.get("k") or []), cbytes(s.get("v") or []))
+        return "(ODel %s %s)" % (d.b(s.get("k")), d.b(s.get("v")))
     if op == "batch":
-        return "(OBatch %s %s)" % (_pairs(s.get("adds")), _pairs(s.get("dels")))
+        return "(OBatch %s %s)" % (_pairs(d, s.get("adds")), _pairs(d, s.get("dels")))
     return "OBackupRestore"
 
 
-def _obs(o):
-    return "(mkobs %s %s %s %s)" % (cN(o["fe_err"]), clist([cbytes(v) for v in o["vals"]]),
-                                    cN(o["find_err"]), cbytes(o.get("find_val") or []))
+def _obs(d, o):
+    return "(mkobs %s %s %s %s)" % (cN(o["fe_err"]), clist([d.b(v) for v in o["vals"]]),
+                                    cN(o["find_err"]), d.b(o.get("find_val")))
 
 
 def to_coq(c):
-    steps = clist(["(mkstep %s %s %s)" % (_op(s), cN(s["err"]), clist([_obs(o) for o in s["obs"]]))
+    d = _Dict()
+    keys = clist([d.b(k) for k in c["keys"]])
+    steps = clist(["(mkstep %s %s %s)" % (_op(d, s), cN(s["err"]), clist([_obs(d, o) for o in s["obs"]]))
                    for s in c["steps"]])
-    return "mk %s %s" % (clist([cbytes(k) for k in c["keys"]]), steps)
+    return "(%s mk %s %s)" % (" ".join(d.defs), keys, steps)
 
 
 def nontrivial(c):
